@@ -58,8 +58,8 @@ class Ctx:
         cov = self.res.cov
         cov['evaluations'] += out.n_obs + out.n_traces
         cov['traces_validated_against_impl'] += out.n_obs + out.n_traces - len(out.bad)
-        cov['states'] += out.states
-        cov['transitions'] += out.n_events
+        cov['trace_states'] = cov.get('trace_states', 0) + out.states        # states of the trace-validation runs (one per event)
+        cov['trace_events'] = cov.get('trace_events', 0) + out.n_events
         for c in cases:
             if c['key'] not in self.keys:
                 self.keys.add(c['key'])
